@@ -201,6 +201,11 @@ def scenarios(tier):
             compare_ctx=False)
         # (one deviation: the timer job overtakes the child's result)
         jobs.append((scn, 1 if quick else 2, 40 if quick else 1200, 1))
+    # the database refuses the first commit of every pause / resume command
+    # as a deadlock victim: the engine retries the transaction
+    for scn, bound, secs, na in list(jobs):
+        jobs.append((common.variant(scn, '/dbretry', cmd_db_fault=True),
+                     0, secs, na))
     # every policy program of C08 (retry matrix, waits, timeout races,
     # fail-on, task kinds x policies, policy pairs) paused at every point
     # and resumed at every later point: "tasks created before the pause may
